@@ -1,6 +1,6 @@
 """Valve A2S family: how the generic property runners drive it."""
 
-FAMILY = dict(
+FAMILY = dict(send_units=3, 
     name="valve", nargs=4, gen="valve", retries=3, port=0, gather=2, decode_property="C02", entry="valve",
     describe=("all 32 EDF flag subsets, both info layouts, The Ship, ROR2, 0-3 challenge rounds, single / Source split / "
               "GoldSrc split at random cut points"),
